@@ -34,7 +34,7 @@ PROPS = {
                 "Each program is run at budget 0 (cost C) and then at {C, C+1, 2C, u64::MAX, random>=C} (must be identical) and {C-1, C-2, C/2, 1, random<C} "
                 "(must be CostExceeded); every budget 1..C+2 exhaustively when C<=4000; when the GuardEnter hook reports a cost-exempt guard and the flags contain NEW_COST_MODEL (nothing else may grandfather a guard) the smallest "
                 "succeeding budget is located by bisection and monotonicity asserted around it. A run that fails at budget 0 must fail at every budget: {1, 1000, random, u64::MAX-1, u64::MAX}, every budget inside the window [entry cost-2, entry cost+declared+2] of every softfork guard the run entered (GuardEnter hook events; a guard temporarily replaces the budget), and 1..600 for a sixteenth of the other failing runs. Non-trivial: succeeded at 0 with C>=100 and >=6 budgets swept.",
-        "assumptions": COMMON_ASSUMPTIONS + ["the GuardEnter hook's `exempt` field decides whether the minimal budget may exceed C"],
+        "assumptions": COMMON_ASSUMPTIONS + ["a guard counts as cost-exempt only if the GuardEnter hook reports it AND the flags contain NEW_COST_MODEL"],
     },
     "C03": {
         "variants": REL,
